@@ -145,7 +145,7 @@ def _is_abel_obj(o):
     return type(o).__module__.split('.')[0] == 'abel' and not isinstance(o, (type, types.FunctionType, types.ModuleType))
 
 
-def leaves(o, path='result', seen=None, depth=0):
+def leaves(o, path='result', seen=None, depth=0, private=False):
     """(path, ndarray) for every array reachable from a result through tuples,
     lists, dicts and attributes of objects of abel classes."""
     if seen is None:
@@ -159,21 +159,21 @@ def leaves(o, path='result', seen=None, depth=0):
             out.append((path, o))
         else:
             for i, x in enumerate(o.ravel().tolist()):
-                out += leaves(x, '%s[%d]' % (path, i), seen, depth + 1)
+                out += leaves(x, '%s[%d]' % (path, i), seen, depth + 1, private)
     elif isinstance(o, (tuple, list)):
         for i, x in enumerate(o):
-            out += leaves(x, '%s[%d]' % (path, i), seen, depth + 1)
+            out += leaves(x, '%s[%d]' % (path, i), seen, depth + 1, private)
     elif isinstance(o, dict):
         for k in o:
-            out += leaves(o[k], '%s[%r]' % (path, k), seen, depth + 1)
+            out += leaves(o[k], '%s[%r]' % (path, k), seen, depth + 1, private)
     elif _is_abel_obj(o):
         try:
             d = vars(o)
         except TypeError:
             d = {}
         for k in sorted(d):
-            if not k.startswith('_'):        # private attributes are not part of the result
-                out += leaves(d[k], '%s.%s' % (path, k), seen, depth + 1)
+            if private or not k.startswith('_'):        # private attributes are not part of the result
+                out += leaves(d[k], '%s.%s' % (path, k), seen, depth + 1, private)
     return out
 
 
@@ -342,5 +342,88 @@ def check_case(call_src, variant, seed, clauses=('args', 'repeat', 'uninit', 're
             if d5 != d1 and not any(f[0] in ('repeat', 'result-mutation') for f in fails):
                 fails.append(('arg-reuse', 'after the caller overwrote the arrays it had passed, an identical call on '
                               'new arrays with the same contents differs at %s' % ', '.join(diff_paths(d1, d5)[:4])))
+    return fails, info
+
+
+def shared(la, lb):
+    """pairs (path a, path b) of arrays that share memory"""
+    out = []
+    for pa, a in la:
+        if not a.size:
+            continue
+        for pb, b in lb:
+            if b.size and np.may_share_memory(a, b) and np.shares_memory(a, b):
+                out.append((pa, pb))
+                break
+    return out
+
+
+def check_object(ctor_src, use_src, variant, seed):
+    """C18 on a REUSED object: construct once (ctor_src), use it (use_src, the object is `obj`),
+    compare with a fresh object, look for memory shared between a result and the object or a
+    later result, overwrite every array reachable from the results and use the object again,
+    overwrite the argument arrays and use it again."""
+    fails = []
+    nan = float('nan')
+
+    def use(o, fill=nan):
+        return one_call(use_src, variant, seed + 1, fill, env={'obj': o})
+
+    def dg(r, e):
+        return exc_digest(e) if e is not None else digest(r)
+    A0, obj, e0 = one_call(ctor_src, variant, seed, nan)
+    info = dict(outcome='ok' if e0 is None else 'constructor raised ' + type(e0).__name__)
+    if e0 is not None:
+        if is_readonly_error(e0):
+            fails.append(('object-args', 'the constructor writes into a read-only argument'))
+        return fails, info
+    A1, r1, e1 = use(obj)
+    d1 = dg(r1, e1)
+    info['outcome'] = 'ok' if e1 is None else 'raised ' + type(e1).__name__
+    info['digest'] = d1
+    if e1 is not None and is_readonly_error(e1):
+        fails.append(('object-args', 'the call writes into a read-only argument (%s)' % str(e1)[:80]))
+        return fails, info
+    # reference: the same use of a brand-new object
+    Af, objf, ef = one_call(ctor_src, variant, seed, nan)
+    Auf, rf, euf = use(objf)
+    dfresh = dg(rf, euf)
+    # the same use again, on the same object
+    A2, r2, e2 = use(obj)
+    d2 = dg(r2, e2)
+    if d2 != d1:
+        fails.append(('object-repeat', 'the second identical use of the same object differs at %s' % ', '.join(diff_paths(d1, d2)[:4])))
+    elif dfresh != d1:
+        fails.append(('object-repeat', 'a new object gives a different result at %s' % ', '.join(diff_paths(d1, dfresh)[:4])))
+    A3, r3, e3 = use(obj, 12345.678)
+    if dg(r3, e3) != d1 and d2 == d1:
+        fails.append(('object-uninit', 'result depends on the contents of np.empty memory at %s' % ', '.join(diff_paths(d1, dg(r3, e3))[:4])))
+    ch = A0.changed() + A1.changed() + A2.changed()
+    if ch:
+        fails.append(('object-args', 'argument(s) %s modified' % ', '.join(sorted(set(ch)))))
+    if e1 is None:
+        sh = shared(leaves(r1), leaves(r2, 'later result'))
+        if sh:
+            fails.append(('object-shares', '%s shares memory with %s' % sh[0]))
+        else:
+            sh = shared(leaves(r1), leaves(obj, 'object', private=True))
+            if sh:
+                fails.append(('object-shares', '%s shares memory with %s' % sh[0]))
+        # the caller overwrites every array it can reach from the results
+        n = trash(r1) + trash(r2) + trash(r3)
+        if n:
+            A4, r4, e4 = use(obj)
+            d4 = dg(r4, e4)
+            if d4 != dfresh:
+                fails.append(('object-result-mutation', 'after the caller overwrote the returned arrays, the next identical use of '
+                              'the same object differs from a new object at %s' % ', '.join(diff_paths(dfresh, d4)[:4])))
+        if not any(f[0] in ('object-repeat', 'object-result-mutation') for f in fails):
+            # (the arrays given to the constructor belong to the object: only the arguments of the uses)
+            if trash_args(A1) + trash_args(A2):
+                A5, r5, e5 = use(obj)
+                d5 = dg(r5, e5)
+                if d5 != dfresh:
+                    fails.append(('object-arg-reuse', 'after the caller overwrote the arrays it had passed, the next identical use '
+                                  'of the same object differs at %s' % ', '.join(diff_paths(dfresh, d5)[:4])))
     return fails, info
 '''
